@@ -84,6 +84,18 @@ def main():
     for v in ("should", "should_only"):
         items[f"twins.layers.case.{v}"] = out(getattr(LayerRule().based_on(arch_c).layers_that().are_named("DATA"), v)().access_layers_that().are_named(["Data", "data"]), EvaluableArchitectureGraph(NetworkxGraph(list(twins), [])))
         items[f"twins.layers.case.{v}.be"] = out(getattr(LayerRule().based_on(arch_c).layers_that().are_named("DATA"), v)().be_accessed_by_layers_that().are_named(["data", "Data"]), EvaluableArchitectureGraph(NetworkxGraph(list(twins), [])))
+    # layer names that only differ in how a number is written, listed in one line; and a regex layer that overlaps layers
+    # naming some of its modules explicitly (the message speaks about several layers for one subject layer)
+    arch_z = LayeredArchitecture().layer("zone1").containing_modules(["r.x"]).layer("zone01").containing_modules(["r.y"]).layer("zone001").containing_modules(["r.b"])
+    for v in ("should", "should_only"):
+        items[f"twins.layers.digits.{v}"] = out(getattr(LayerRule().based_on(arch_z).layers_that().are_named("zone001"), v)().access_layers_that().are_named(["zone1", "zone01"]), EvaluableArchitectureGraph(NetworkxGraph(list(twins), [])))
+        items[f"twins.layers.digits.{v}.exc"] = out(getattr(LayerRule().based_on(arch_z).layers_that().are_named("zone001"), v)().be_accessed_by_layers_except_layers_that().are_named(["zone01", "zone1"]), EvaluableArchitectureGraph(NetworkxGraph(list(twins), [])))
+    ov = ["s", "s.cart", "s.order", "s.stock", "s.user", "s.db", "s.web"]
+    ev_ov = EvaluableArchitectureGraph(NetworkxGraph(list(ov), [AbsoluteImport("s.web", "s.db")]))
+    arch_o = LayeredArchitecture().layer("alpha").have_modules_with_names_matching(r"s\.(cart|order|stock|user)$").layer("beta").containing_modules(["s.order"]).layer("gamma").containing_modules(["s.stock"]).layer("target").containing_modules(["s.db"])
+    for v in ("should", "should_only"):
+        items[f"overlap.{v}"] = out(getattr(LayerRule().based_on(arch_o).layers_that().are_named("alpha"), v)().access_layers_that().are_named("target"), ev_ov)
+        items[f"overlap.{v}.exc"] = out(getattr(LayerRule().based_on(arch_o).layers_that().are_named("alpha"), v)().be_accessed_by_layers_except_layers_that().are_named("target"), ev_ov)
     # magnitudes: 12 x 12 = 144 violating imports in one rule (and 25 objects missing for one subject)
     many = ["r", "r.s", "r.o", "r.q"] + [f"r.s.m{i}" for i in range(12)] + [f"r.o.t{i}" for i in range(12)] + [f"r.q.u{i:02d}" for i in range(25)]
     mimps = [(f"r.s.m{i}", f"r.o.t{j}") for i in range(12) for j in range(12)]
